@@ -5,7 +5,7 @@ of the real code, run TLC on the small-scope models and on the recorded traces, 
 rejections, map TLC's verdict list to the exit code and write the evidence file.  It contains no
 expected values: every verdict is TLC's verdict on the specification in /verif/spec.
 """
-import hashlib, json, os, re, shutil, subprocess, sys, time
+import hashlib, json, os, re, shutil, signal, subprocess, sys, time
 from concurrent.futures import ThreadPoolExecutor
 
 ROOT = os.path.dirname(os.path.dirname(os.path.abspath(__file__)))
@@ -40,16 +40,49 @@ def repo_go_env():
     return env
 
 
-def run(cmd, cwd=None, env=None, timeout=None, check=False):
+_children = set()
+
+
+def _kill_children(*_a):
+    """SIGTERM/SIGINT/exit of the check: nothing it started outlives it (each child leads its own process group)."""
+    for pid in list(_children):
+        try:
+            os.killpg(pid, signal.SIGKILL)
+        except Exception:
+            pass
+    if _a:
+        os._exit(143)
+
+
+import atexit
+atexit.register(_kill_children)
+for _sig in (signal.SIGTERM, signal.SIGINT, signal.SIGHUP):
     try:
-        p = subprocess.run(cmd, cwd=cwd, env=env, timeout=timeout, stdout=subprocess.PIPE,
-                           stderr=subprocess.STDOUT, text=True, errors="replace")
-    except subprocess.TimeoutExpired as ex:
-        out = ex.stdout if isinstance(ex.stdout, str) else (ex.stdout or b"").decode("utf8", "replace")
-        return 124, out + "\n[timeout]"
+        signal.signal(_sig, _kill_children)
+    except Exception:
+        pass
+
+
+def run(cmd, cwd=None, env=None, timeout=None, check=False):
+    p = subprocess.Popen(cmd, cwd=cwd, env=env, stdout=subprocess.PIPE, stderr=subprocess.STDOUT, text=True, errors="replace",
+                         start_new_session=True)
+    _children.add(p.pid)
+    try:
+        out, _ = p.communicate(timeout=timeout)
+    except subprocess.TimeoutExpired:
+        try:
+            os.killpg(p.pid, signal.SIGKILL)
+        except Exception:
+            p.kill()
+        out, _ = p.communicate()
+        _children.discard(p.pid)
+        return 124, (out or "") + "\n[timeout]"
+    finally:
+        if p.poll() is not None:
+            _children.discard(p.pid)
     if check and p.returncode != 0:
-        raise Inconclusive("command failed: %s\n%s" % (" ".join(cmd), p.stdout[-4000:]))
-    return p.returncode, p.stdout
+        raise Inconclusive("command failed: %s\n%s" % (" ".join(cmd), out[-4000:]))
+    return p.returncode, out
 
 
 class Run:
@@ -61,6 +94,11 @@ class Run:
         self.dir = os.path.join(BUILD, "run-%s-%s-%d" % (prop, tier, os.getpid()))
         shutil.rmtree(self.dir, ignore_errors=True)
         os.makedirs(self.dir)
+        # scratch directories of runs that were killed (their process is gone) are removed by the next run
+        for d in os.listdir(BUILD):
+            m = re.match(r"run-.*-(\d+)$", d)
+            if m and not os.path.exists("/proc/%s" % m.group(1)):
+                shutil.rmtree(os.path.join(BUILD, d), ignore_errors=True)
         self.states = 0
         self.transitions = 0
         self.traces = 0
